@@ -165,7 +165,7 @@ def run_chunk(pid: str, tier: str, seeds: list[int],
 
 
 def run_fixed(pid: str, plans: list[dict[str, Any]],
-              timeout: float) -> list[dict[str, Any]]:
+              timeout: float, base: int = 0) -> list[dict[str, Any]]:
     """Deterministic, enumerated part of a check (no PRNG involved)."""
     faulthandler.dump_traceback_later(timeout, exit=True)
     case = get_case(pid)
@@ -184,7 +184,7 @@ def run_fixed(pid: str, plans: list[dict[str, Any]],
                 rec['harness_errors'] = [traceback.format_exc()[-2500:]]
                 rec['plan'] = None
                 rec['plan_brief'] = None
-            rec['seed'] = -1 - i
+            rec['seed'] = -1 - i - base
             rec['wall'] = time.time() - t0
             rec['violations'] = clean(rec['violations'])
             out.append(rec)
@@ -351,7 +351,7 @@ def drive(pid: str, tier: str, seed: int, workers: int | None = None,
         fixed = case.fixed_plans(tier)
         for i in range(0, len(fixed), 4):
             futs[pool.submit(run_fixed, pid, fixed[i:i + 4],
-                             case.chunk_timeout)] = None
+                             case.chunk_timeout, i)] = None
         twin = pool.submit(run_chunk, pid, tier, chunks[0],
                            case.chunk_timeout)
         first: Any = None
@@ -504,6 +504,30 @@ def drive(pid: str, tier: str, seed: int, workers: int | None = None,
         for e in harness_errors[:5]:
             print(f'[{pid}] HARNESS ERROR: {e}', file=sys.stderr)
         return 2
+    return 0
+
+
+def write_replay(pid: str, plan_path: str, out_path: str) -> int:
+    """Evaluate a hand-written plan and store it in replay format."""
+    setup_paths()
+    with open(plan_path) as f:
+        plan = json.load(f)
+    ctx = mp.get_context('spawn')
+    with cf.ProcessPoolExecutor(1, mp_context=ctx,
+                                initializer=_worker_init) as pool:
+        rec = pool.submit(run_one, pid, plan, None, 300.0).result()
+    with open(out_path, 'w') as f:
+        json.dump({
+            'property': pid, 'seed': None, 'verif_seed': None,
+            'tier': 'manual', 'plan': plan, 'tapes': rec.get('tapes'),
+            'clauses': sorted({v['clause'] for v in rec['violations']}),
+            'violations': rec['violations'][:6],
+            'event_digests': rec['event_digests'],
+            'value_digests': rec['value_digests'], 'minimised': False,
+            'candidates_tried': 0,
+        }, f, indent=1, default=repr)
+    print(f'[{pid}] wrote {out_path}: clauses='
+          f'{sorted({v["clause"] for v in rec["violations"]})}')
     return 0
 
 
